@@ -34,6 +34,7 @@ class Ctx:
         self.notes = []
         self.depth = 0
         self.statics = {}        # (crate, static name) -> reference to its per-path value
+        self.step_limit = STEP_LIMIT
 
     # ---- symbolic inputs ----
     def fresh(self, name, bits, signed=False):
@@ -152,6 +153,23 @@ class Ctx:
     def cover(self, cls):
         self.classes.add(cls)
 
+    ELEM_STRIDE = 64
+
+    def address_of(self, v):
+        """fake but consistent addresses: elements of one list are ELEM_STRIDE apart, distinct objects are far apart"""
+        if not hasattr(self, '_addr'): self._addr = {}; self._addr_keep = []
+        def base(obj):
+            k = id(obj)
+            if k not in self._addr:
+                self._addr[k] = 0x1000000 * (len(self._addr) + 1); self._addr_keep.append(obj)
+            return self._addr[k]
+        if isinstance(v, ElemRef): return base(v.lst) + v.idx * self.ELEM_STRIDE
+        if isinstance(v, Agg) and v.name == 'RawPtr': return base(v.fields[0]) + v.fields[1] * self.ELEM_STRIDE
+        if isinstance(v, FieldRef): return base(v.obj) + 8 * v.idx + 8
+        if isinstance(v, LocalRef): return base(v.frame) + 8 * v.idx
+        if isinstance(v, Ref): return base(v)
+        return base(v)
+
 
 # ---------------- place parsing ----------------
 LOCAL = re.compile(r'^_(\d+)$')
@@ -177,6 +195,9 @@ def parse_place(s):
         if k >= 0:
             left = inner[:k]
             dot = top_find(left, '.', last=True)
+            ty = inner[k + 2:]
+            if ty.startswith(('std::ptr::Unique<', 'std::ptr::NonNull<', 'core::ptr::Unique<', 'core::ptr::NonNull<')):
+                return parse_place(left[:dot])          # Box<T> is the value itself: its pointer fields are transparent
             return ('field', parse_place(left[:dot]), int(left[dot + 1:]))
         k = top_find(inner, ' as ')
         if k >= 0:
@@ -229,7 +250,10 @@ class Interp:
     # ------------------------------------------------------------------ enums
     def variant_index(self, crate, ty, var):
         base = ty.split('::')[-1]
-        if base == 'Ordering': return ORDERING[var] & ((1 << 64) - 1)
+        if base == 'Ordering':
+            if var in ORDERING: return ORDERING[var] & ((1 << 64) - 1)
+            atomic = ['Relaxed', 'Release', 'Acquire', 'AcqRel', 'SeqCst']
+            return atomic.index(var) if var in atomic else None
         order = [crate] + [c for c in self.crates if c != crate]
         for c in order:
             info = self.crates.get(c)
@@ -644,6 +668,8 @@ class Interp:
             f = self.c_operand(mc.group(1), fn); ty = mc.group(2); kind = mc.group(3)
             if kind in ('IntToInt',) and ty in INT_BITS:
                 return lambda ctx, fr: self.cast_int(f(ctx, fr), ty)
+            if kind == 'PointerExposeProvenance' and ty in INT_BITS:
+                return lambda ctx, fr: BV(ctx.address_of(f(ctx, fr)), INT_BITS[ty])
             if kind in ('PointerCoercion', 'PtrToPtr', 'Transmute', 'PointerExposeProvenance', 'PointerWithExposedProvenance', 'FnPtrToPtr'):
                 if kind == 'Transmute' and ty in INT_BITS:
                     def r_addr(ctx, fr):
@@ -922,6 +948,13 @@ class Interp:
         if fn is not None: return ('fn', fn)
         for rx, f, pat in self.models_re:
             if rx.match(key): return ('model', f)
+        segs = key.split('::')
+        if len(segs) >= 2 and re.fullmatch(r'\w+', segs[-1]) and re.fullmatch(r'\w+', segs[-2]):
+            # an enum variant (or tuple struct) constructor used as a function value
+            k = self.variant_index(crate, segs[-2], segs[-1])
+            if k is not None:
+                ty, var = segs[-2], segs[-1]
+                return ('model', lambda I, ctx, *a: Agg(ty, list(a), var, k))
         return None
 
     def _resolve_crate_fn(self, crate, key):
@@ -986,11 +1019,22 @@ class Interp:
                 allc = [v for (t, tr, me), v in info.trait_impls.items() if tr == trait and me == meth]
                 if len(allc) == 1 and len(allc[0]) == 1 and len(allc[0][0]) == 4: return self._pick(info, [allc[0][0][3]])
             return None
-        if strict_type_only and '::' not in key: return None
-        mi = re.match(r'^(?:[\w:]+::)?<impl ([\w:]+)(?:<.*>)?>::(\w+)$', key)
-        if mi:
-            names = info.inherent.get((mi.group(1).split('::')[-1], mi.group(2)))
+        md = re.match(r"^<(?:dyn )?([\w:]+)(?:<.*>)?(?: \+ [^>]*)?>::(\w+)$", key)
+        if md and ' as ' not in key:
+            names = info.inherent.get((md.group(1).split('::')[-1], md.group(2)))
             if names:
+                f = self._pick(info, names)
+                if f is not None: return f
+        if strict_type_only and '::' not in key: return None
+        mi = re.match(r'^(?:[\w:]+::)?<impl (([\w:]+)(?:<.*>)?)>::(\w+)$', key)
+        if mi:
+            names = info.inherent.get((mi.group(2).split('::')[-1], mi.group(3)))
+            if names:
+                if len(names) > 1:
+                    flat = lambda t: re.sub(r'\b(?:\w+::)+(\w+)', r'\1', re.sub(r"'\w+ ?,? ?", '', t)).replace(' ', '')
+                    hdr = lambda n: info.aliases_full.get(info.inherent_hdr.get(n, ''), info.inherent_hdr.get(n, ''))
+                    same = [n for n in names if flat(hdr(n)) == flat(mi.group(1))]
+                    if same: names = same
                 f = self._pick(info, names)
                 if f is not None: return f
             return None
@@ -1050,14 +1094,14 @@ class Interp:
                     nxt = op(ctx, fr)
                     if nxt is not None:
                         if nxt is RETURN:
-                            if ctx.steps > STEP_LIMIT: raise Unsupported('step limit')
+                            if ctx.steps > ctx.step_limit: raise StepLimit('step limit')
                             r = fr[0]
                             return r if r is not None else UNIT
                         bb = nxt
                         break
                 else:
                     raise Unsupported('fell off block in ' + hk)
-                if ctx.steps > STEP_LIMIT: raise Unsupported('step limit')
+                if ctx.steps > ctx.step_limit: raise StepLimit('step limit')
         except Unsupported as e:
             if not getattr(e, 'located', False):
                 e.args = (f'{e.args[0]} [in {hk} bb{bb}]',); e.located = True
